@@ -446,7 +446,7 @@ inductive Ev
   | parseSign
   | chanSetup
   | batchSign (ok : Bool)
-  | sendSign (sigs : List Sig) (nonces : List Key)
+  | sendSign (sigs : List Sig) (nonces : List Key) (stagedAtSend : Option Staged)
   | sendReject
 deriving DecidableEq, Repr
 
@@ -470,45 +470,80 @@ structure HS where
   panicked : Bool
 deriving Repr
 
-def hsStmt (env : HEnv) (x : HS) (stmt : List String) : HS :=
+/-- the statements of the Sign case that matter, parsed from the regenerated string form -/
+inductive HStmt
+  | pendingCall                 -- batch := s.orderManager.PendingBatch()
+  | ifnilBatch (rejects : Bool) -- if batch == nil { [sendRejectUnparsedBatch]; return }
+  | parse                       -- order.ParseRPCSign(msg.Sign)
+  | assignNonces                -- batch.ServerNonces = serverNonces
+  | assignPrev                  -- batch.PreviousOutputs = prevOutputs
+  | chanSetup                   -- s.server.fundingManager.BatchChannelSetup(batch)
+  | batchSign                   -- sigs, nonces, err := s.orderManager.BatchSign()
+  | sendSign                    -- err = s.sendSignBatch(batch, sigs, nonces, channelKeys)
+  | iferrReject                 -- if err != nil { return s.sendRejectBatch(batch, err) }
+  | iferrReturn                 -- if err != nil { return … }
+  | ret                         -- return
+  | skip                        -- anything without an effect the model tracks
+deriving DecidableEq, Repr
+
+def parseH : List String → HStmt
+  | ["call", "s.orderManager.PendingBatch", _] => .pendingCall
+  | ["ifnil", "batch", calls, _] => .ifnilBatch (calls == "s.sendRejectUnparsedBatch")
+  | ["call", "order.ParseRPCSign", _] => .parse
+  | ["assign", "batch.ServerNonces", _] => .assignNonces
+  | ["assign", "batch.PreviousOutputs", _] => .assignPrev
+  | ["call", "s.server.fundingManager.BatchChannelSetup", _] => .chanSetup
+  | ["call", "s.orderManager.BatchSign", _] => .batchSign
+  | ["call", "s.sendSignBatch", "batch,sigs,nonces,channelKeys"] => .sendSign
+  | ["iferr", "s.sendRejectBatch", _] => .iferrReject
+  | ["iferr", _, _] => .iferrReturn
+  | ["return", _] => .ret
+  | _ => .skip
+
+def hStep (env : HEnv) (x : HS) (stmt : HStmt) : HS :=
   if x.done then x else
   match stmt with
-  | ["call", "s.orderManager.PendingBatch", _] => x
-  | ["ifnil", "batch", calls, _] =>
+  | .pendingCall => x
+  | .ifnilBatch rejects =>
     -- `if batch == nil { …; return s.sendRejectUnparsedBatch(msg.Sign.BatchId, err) }` (present since the
     -- fix "rpcserver: reject a sign message that arrives without a pending batch")
     if x.st.pending.isSome then x
-    else if calls = "s.sendRejectUnparsedBatch" then { x with trace := .sendReject :: x.trace, done := true }
+    else if rejects then { x with trace := .sendReject :: x.trace, done := true }
     else { x with done := true }
-  | ["call", "order.ParseRPCSign", _] =>
-    { x with trace := .parseSign :: x.trace, err := !env.parseOk }
-  | ["assign", "batch.ServerNonces", _] =>
+  | .parse => { x with trace := .parseSign :: x.trace, err := !env.parseOk }
+  | .assignNonces =>
     if x.st.pending.isNone then { x with done := true, panicked := true }
     else { x with st := attachAux x.st env.nonces ((x.st.pending.map (·.prevOuts)).getD []) }
-  | ["assign", "batch.PreviousOutputs", _] =>
+  | .assignPrev =>
     if x.st.pending.isNone then { x with done := true, panicked := true }
     else { x with st := attachAux x.st ((x.st.pending.map (·.nonces)).getD []) env.prev }
-  | ["call", "s.server.fundingManager.BatchChannelSetup", _] =>
-    { x with trace := .chanSetup :: x.trace, err := !env.chanOk }
-  | ["call", "s.orderManager.BatchSign", _] =>
+  | .chanSetup => { x with trace := .chanSetup :: x.trace, err := !env.chanOk }
+  | .batchSign =>
     match batchSign x.st env.faults with
     | (st', .ok sigs nonces) =>
       { x with st := st', trace := .batchSign true :: x.trace, err := false, sigs := sigs, tnonces := nonces }
     | (st', .panic) => { x with st := st', done := true, panicked := true }
     | (st', _) => { x with st := st', trace := .batchSign false :: x.trace, err := true, sigs := [], tnonces := [] }
-  | ["call", "s.sendSignBatch", "batch,sigs,nonces,channelKeys"] =>
-    { x with trace := .sendSign x.sigs x.tnonces :: x.trace, err := !env.sendOk }
-  | ["iferr", "s.sendRejectBatch", _] =>
+  | .sendSign =>
+    -- the message carries the signature variables; ghost: the staging area at the moment of the send
+    { x with trace := .sendSign x.sigs x.tnonces x.st.db.staged :: x.trace, err := !env.sendOk }
+  | .iferrReject =>
     if !x.err then x
     else if x.st.pending.isNone then { x with done := true, panicked := true }   -- batch.MatchedOrders on nil
     else { x with trace := .sendReject :: x.trace, done := true }
-  | ["iferr", _, _] => if x.err then { x with done := true } else x
-  | ["return", _] => { x with done := true }
-  | _ => x
+  | .iferrReturn => if x.err then { x with done := true } else x
+  | .ret => { x with done := true }
+  | .skip => x
+
+def hsStmt (env : HEnv) (x : HS) (stmt : List String) : HS := hStep env x (parseH stmt)
+
+def hInit (s : St) : HS :=
+  { st := s, trace := [], err := false, sigs := [], tnonces := [], done := false, panicked := false }
+
+def handleSignParsed (prog : List HStmt) (s : St) (env : HEnv) : HS := prog.foldl (hStep env) (hInit s)
 
 def handleSignWith (prog : List (List String)) (s : St) (env : HEnv) : HS :=
-  prog.foldl (hsStmt env)
-    { st := s, trace := [], err := false, sigs := [], tnonces := [], done := false, panicked := false }
+  handleSignParsed (prog.map parseH) s env
 
 /-- the `Sign` case as the Go source orders it today; `.trace.reverse` is the chronological trace -/
 def handleSign (s : St) (env : HEnv) : HS := handleSignWith Pool.Gen.C05.handlerSignProg s env
